@@ -3,12 +3,19 @@
 Sub-checks (see harness/manifest/C10.json for what each one ties):
   select    decision table of ProjectedGradientDescent.set_constraint_from_standard_qt_and_option vs the Coq model (the physical
             projection runs in the OPTION's mode_proj_order: repaired code, fixes/qoperation-func-proj-physical-with-var-order.diff)
-  reuse     one algorithm object used for several jobs: last estimate == a fresh object's estimate, and feasible (repaired code,
-            fixes/pgd-cached-func-proj.diff, owner C13)
+  reuse     histories: one LossMinimizationEstimator + loss + loss option + algorithm object (or subsets) used for several jobs that differ in
+            options AND in the experiment (tester lists rotated: same matrix shapes, other matrices): every estimate == all-fresh objects' estimate,
+            and feasible
+  reuse_linear  one LinearEstimator / ProjectedLinearEstimator instance over several experiments (same shape / other shape, single / sequence calls):
+            == a fresh instance, exact data -> the object
+  projref   calc_proj_physical (object level) and calc_proj_physical_with_var (variable level), both orders, vs an INDEPENDENT reference
+            projection (ref_proj_physical: numpy Dykstra on operators rebuilt from the basis; shares no code with quara's projections)
   origin    generate_origin_obj vs the model; origin is physical; it is the start point of the three algorithms
   steps     every step of backtracking / momentum / FISTA runs vs the extracted step functions (P, f-values: recorded)
   run_eq    a complete backtracking run with the rational equality projection vs the extracted loop
-  ple       ProjectedLinearEstimator == calc_proj_physical(LinearEstimator's estimate), both orders; exact data
+  ple       ProjectedLinearEstimator == calc_proj_physical(LinearEstimator's estimate), both orders, AND == the independent reference projection
+            of the linear estimate (to 100*sqrt(eps_proj_physical)); exact data
+Settings: outcome count != dimension is standard (3-outcome qubit POVM and instrument, 2-outcome qutrit POVM in the quick tier; 4-outcome qubit POVM thorough).
   ineq_var  State.calc_proj_ineq_constraint_with_var(on_para_eq_constraint=True) vs the exact diagonal two-qubit model (correspondence only)
   estimates all estimators x algorithms x losses x flags x orders x data kinds: physicality verdicts (quara's own and
             exact psd_dec), every stored iterate feasible, exact data returns the object
@@ -636,8 +643,16 @@ def chk_estimate(ctx, case):
         capped = case["est"] == "lme" and det.k >= case["maxit"]
         ctx.count("estimates", key=(case["id"], "exact"), nontrivial=not capped, label="exact-recovery:%s:%s" % (case["truth"], "capped" if capped else "converged"))
         if dist > tol_x and not capped:
-            ctx.violation("estimates", site, "exact-data-not-recovered",
-                          "%s %s para=%s truth=%s: exact data, |estimate - truth| = %.3e > %.1e" % (kind, label, para, case["truth"], dist, tol_x), case)
+            sig = "exact-data-not-recovered"
+            extra = ""
+            n_el = params_of(est)[1].shape[0]
+            if case["est"] == "lme" and para and type_of(kind) in ("povm", "mprocess") and n_el >= 3 and float(det.alpha[-1]) < 1e-6:
+                # known finding C10-3 (= C11-3 seen through C10): >= 3 elements under on_para_eq_constraint=True, the installed projection is the
+                # nearest-point map of a non-Euclidean metric of the variables, the step is no descent direction, the line search collapses
+                sig += ":eq-para-m3+:line-search-stalled"
+                extra = " — backtracking stopped by its own criterion after %d iterations with step size %.1e" % (det.k, float(det.alpha[-1]))
+            ctx.violation("estimates", site, sig,
+                          "%s m=%d %s para=%s truth=%s: exact data, |estimate - truth| = %.3e > %.1e%s" % (kind, n_el, label, para, case["truth"], dist, tol_x, extra), case)
 
 
 def me_close(obj, B, tol):
@@ -661,6 +676,7 @@ def gen_estimate_cases(ctx):
     datas = [("exact", 1000), ("fewshot", 1), ("fewshot", 3), ("fewshot", 10), ("far", 5)]
     for kind, sysname, mo in settings:
         small = sysname == "1qubit" and kind in ("qst", "povmt")
+        heavy = kind == "qmpt" or sysname == "2qubit"
         for para in (True, False):
             # projected linear: both orders, all data kinds, all truths
             for order in ("eq_ineq", "ineq_eq"):
@@ -672,10 +688,15 @@ def gen_estimate_cases(ctx):
             combos = list(itertools.product(("bt", "mom", "fista"), ("wse", "swse", "wre", "swre")))
             for algo, loss in combos:
                 for data, shots in datas:
-                    if quick and not small and rng.random() < 0.6 and data != "exact":
-                        continue
-                    if quick and (data, shots) == ("fewshot", 3) and rng.random() < 0.5:
-                        continue
+                    if quick:
+                        # the quick tier samples the grid (every run another sample; the thorough tier runs all of it)
+                        keep = 0.42 if small else (0.07 if heavy else 0.22)
+                        if data == "exact" and algo == "bt":
+                            keep = 0.9 if small else (0.15 if heavy else 0.5)
+                        if rng.random() >= keep:
+                            continue
+                    elif heavy and rng.random() >= 0.3:
+                        continue          # instruments / two qubits: a sample of the grid also in the thorough tier (seconds per run)
                     truth = rng.choice(["boundary", "interior", "generic"]) if data != "exact" else rng.choice(["boundary", "interior"])
                     fl = [True, True]
                     r = rng.random()
@@ -683,7 +704,7 @@ def gen_estimate_cases(ctx):
                         fl = [True, False]
                     elif r < 0.24 and not para:
                         fl = [False, True]          # under on_para_eq_constraint=True this combination is outside the property (see chk_estimate)
-                    maxit = (40 if small else 25) if quick else (300 if small else 120)
+                    maxit = (40 if small else (15 if heavy else 25)) if quick else (300 if small else 120)
                     if data == "exact" and algo == "bt":
                         maxit = max(maxit, 200)
                     add(kind=kind, sys=sysname, m=mo, para=para, truth=truth, data=data, shots=shots, est="lme", algo=algo, loss=loss,
@@ -844,13 +865,16 @@ def sub_select(ctx):
     settings = S_LIGHT if ctx.quick else [t for t in S_THOROUGH if t[1] != "2qubit"]
     n = 0
     for kind, sysname, mo in settings:
+        core = (kind, sysname, mo) in S_CORE or not ctx.quick
         for para in (True, False):
-            for flags in ([True, True], [True, False], [False, True], [False, False]):
-                for order in ("eq_ineq", "ineq_eq"):
+            for flags in ([True, True], [True, False], [False, True], [False, False]) if core else ([True, True], rng.choice([[True, False], [False, True]])):
+                for order in ("eq_ineq", "ineq_eq") if (core or flags == [True, True]) else ("eq_ineq",):
                     algos = ("bt", "mom", "fista") if not ctx.quick else (rng.choice(["bt", "mom", "fista"]),)
                     for algo in algos:
                         maxit = rng.choice([1, 2, 100000]) if flags == [True, True] else 100000
                         cases.append(dict(id="s%d" % n, kind=kind, sys=sysname, m=mo, para=para, algo=algo, flags=flags, order=order, maxit=maxit)); n += 1
+            if not core:
+                continue
             for _ in range(ctx.n(2, 6)):
                 f0 = rng.choice([[True, True], [True, False], [False, True], [False, False]])
                 f1 = rng.choice([f for f in ([True, True], [True, False], [False, True], [False, False]) if f != f0])
@@ -955,7 +979,7 @@ def chk_reuse_linear(ctx, case):
                               "one %s instance used for the experiments %s: job %d (%s %s m=%s para=%s testers rotated by %d, %s data, %s call) returns %s, a fresh instance %s (difference %.3e)" % (
                                   name, [(j[0]["kind"], j[1]) for j in case["jobs"]], ji, c2["kind"], c2["sys"], c2.get("m"), c2["para"], rot, data, mode,
                                   [float(t) for t in got][:6], [float(t) for t in exp][:6], float(np.abs(got - exp).max())), jc)
-                return
+                continue
             if data == "exact":
                 s_ = math.sqrt(truth.eps_proj_physical)
                 dist = float(np.abs(got - np.asarray(truth.to_var(), dtype=float)).max())
@@ -978,7 +1002,7 @@ def sub_reuse(ctx):
     settings = [("qst", "1qubit", None), ("povmt", "1qubit", 3)] + ([] if ctx.quick else [("qpt", "1qubit", None), ("qst", "1qutrit", None), ("qmpt", "1qubit", 3)])
     for kind, sysname, mo in settings:
         for para in (True, False):
-            for algo in ("bt", "mom", "fista"):
+            for algo in ("bt", "mom", "fista") if not ctx.quick else (rng.choice(["bt", "mom", "fista"]),):
                 for jobs in (patterns if not ctx.quick else [patterns[0], rng.choice(patterns[1:])]):
                     cases.append(dict(id="u%d" % n, kind=kind, sys=sysname, m=mo, para=para, algo=algo, loss=rng.choice(["wse", "swse", "wre", "swre"]),
                                       data=rng.choice(["far", "fewshot"]), shots=2, jobs=jobs, maxit=25,
@@ -1174,7 +1198,8 @@ def mag_of(fx):
 def sub_steps(ctx):
     rng = ctx.rng
     cases = []
-    settings = S_LIGHT if ctx.quick else S_THOROUGH
+    # the extracted model evaluates the rational loss exactly: cost grows fast with the number of variables (instruments: thorough tier only)
+    settings = S_CORE if ctx.quick else S_CORE + [("qmpt", "1qubit", None), ("povmt", "1qutrit", 2), ("qst", "2qubit", None)]
     n = 0
     for kind, sysname, mo in settings:
         for para in (True, False):
